@@ -693,7 +693,9 @@ class Translator:
         if isinstance(stmt, ast.If):
             static = self.static_test(stmt.test)
             if static is not None:
-                return self.block((stmt.body if static else stmt.orelse) + rest, env, tail)
+                chosen = stmt.body if static else stmt.orelse
+                # a chosen arm that always returns makes what follows unreachable in this case of the kernel
+                return self.block(chosen if self.terminates(chosen) else chosen + rest, env, tail)
             test = self.truth(stmt.test, env)
             t_body, t_else = self.terminates(stmt.body), self.terminates(stmt.orelse)
             if t_body and t_else:
